@@ -221,6 +221,30 @@ def run(tier, out):
                         events.append({"tid": tid, "seq": 0, "ev": "Invalid", "where": where, "cls": cname, "attr": p,
                                        "what": what, "exc": exc, "changed": changed(ns, before, objs)[:6]})
                         out.nontrivial.add((cname, p, what, where))
+        # identity level: an update refused by the validation (at parse time, or by the allowed-values check after the values
+        # were applied) is EFSim's Update action failing at its first or second step: all or nothing
+        from . import c05
+        from .. import simcheck
+        resm = tlc.run_tlc(wd, "EFSim", c05.model_cfg("FALSE"), workers=4, timeout=900)
+        tlc.require_clean(resm, "EFSim")
+        out.add_tlc(resm, "EFSim protocol incl. undated updates refused by validation (AllOrNothing)", exhaustive=resm.completed)
+        if resm.error:
+            out.violation("model:" + resm.error, {"tlc_output_tail": resm.out[-4000:]})
+        pevents = []
+        for k, seed in enumerate(range(seed_from_env() * 100000 + 9500, seed_from_env() * 100000 + 9500 + (12 if tier == "quick" else 200))):
+            pevents += simcheck.plain_history(ns, 7000 + k, seed, flavours=("invalid", "not-allowed", "input", "struct"))
+        ptrace = wd + "/c14_plain.ndjson"
+        tracecheck.write_trace(ptrace, pevents, keys=c05.KEYS + ("live_toks",))
+        pf, _pn, res3 = tracecheck.validate(wd, "Trace_Sim", ptrace, {"Focus": tlc.tla_str("C15")}, timeout=3000)
+        out.add_tlc(res3, "Trace_Sim on undated updates refused by validation (identities and graph)")
+        out.evaluations += len(pevents)
+        pby = {(e["tid"], e["seq"]): e for e in pevents}
+        for t_, s_, clause, data in pf:
+            e = pby.get((t_, s_), {})
+            out.violation(f"{clause}:{e.get('flavour')}", {"spec_says": data[:1500], "seed": e.get("seed"), "flavour": e.get("flavour"),
+                                                          "outcome": e.get("outcome"), "exc": e.get("exc")})
+        out.extra["undated_updates_refused_by_validation_projected_at_identity_level"] = \
+            sum(1 for e in pevents if e["ev"] == "PlainUpdate" and e["outcome"] == "raised")
         trace = wd + "/c14.ndjson"
         tracecheck.write_trace(trace, events, keys=("tid", "seq", "ev", "where", "cls", "attr", "what", "exc", "changed"))
         fails, _n, res2 = tracecheck.validate(wd, "Trace_Edit", trace, {"JFN": "TRUE"}, timeout=3000)
